@@ -51,11 +51,22 @@ inductive XOp
   | setChmap (map : List Nat)
   | writeAudio (bytes : Nat)
 
+/-- SFC_SET_CHANNEL_MAP_INFO on a handle whose stored map (with its layout tag) is `old`, for a valid map `m` with layout tag `tag`
+    (0 = the container has no tag for it: the call answers SF_FALSE).  Since the repair ("fix: a refused SFC_SET_CHANNEL_MAP_INFO
+    erased the channel map set before it") a map without a tag replaces nothing.  (With no map set before, the C keeps the refused
+    map in psf->channel_map; nothing of it reaches the file and this model does not describe SFC_GET_CHANNEL_MAP_INFO on the write
+    handle, so that state is represented as `old`.) -/
+def applyChmap (old : Option (List Nat × Nat)) (m : List Nat) (tag : Nat) : Option (List Nat × Nat) :=
+  if tag = 0 then old else some (m, tag)
+
+/-- the rule before the repair: the refused map and its tag 0 replaced what was there — the map accepted before was lost -/
+def applyChmapOld (_old : Option (List Nat × Nat)) (m : List Nat) (tag : Nat) : Option (List Nat × Nat) := some (m, tag)
+
 def XState.open (c : Container) (ch : Nat) : XState :=
   ⟨c, ch, false, Strings.init (SF_STR_ALLOW_START ||| SF_STR_ALLOW_END), none, false, none, 0⟩
 
-/-- result code (`sf_set_string`: 0 = stored; `sf_command`: 1 = SF_TRUE) and the state afterwards -/
-def xstep (pn pv : List Byte) (h : XState) : XOp → Nat × XState
+/-- result code (`sf_set_string`: 0 = stored; `sf_command`: 1 = SF_TRUE) and the state afterwards, over the channel-map rule -/
+def xstepW (apply : Option (List Nat × Nat) → List Nat → Nat → Option (List Nat × Nat)) (pn pv : List Byte) (h : XState) : XOp → Nat × XState
   | .setString ty s =>
     let r := store ⟨.write, h.haveWritten, pn, pv⟩ h.strings ty s
     (r.1, { h with strings := r.2 })
@@ -65,10 +76,15 @@ def xstep (pn pv : List Byte) (h : XState) : XOp → Nat × XState
     if h.haveWritten then (0, h)
     else match setChannelMap h.ch map with
       | none => (0, h)
-      | some (r, m, tag) => (r, { h with chmap := some (m, tag) })
+      | some (r, m, tag) => (r, { h with chmap := apply h.chmap m tag })
   | .writeAudio n => (n, { h with haveWritten := true, audioLen := h.audioLen + n })
 
+def xstep : List Byte → List Byte → XState → XOp → Nat × XState := xstepW applyChmap
+/-- … with the channel-map rule before the repair -/
+def xstepOld : List Byte → List Byte → XState → XOp → Nat × XState := xstepW applyChmapOld
+
 def xrun (pn pv : List Byte) (h : XState) (ops : List XOp) : XState := ops.foldl (fun h op => (xstep pn pv h op).2) h
+def xrunOld (pn pv : List Byte) (h : XState) (ops : List XOp) : XState := ops.foldl (fun h op => (xstepOld pn pv h op).2) h
 
 /-- what a re-opened file returns -/
 structure XReopened where
